@@ -6,3 +6,12 @@ import NormModel.Properties.C19
 #print axioms Norm.C19.lexItems_fuel_mono
 #print axioms Norm.C19.lex_shift
 #print axioms Norm.C19.lex_after_prefix
+#print axioms Norm.C19.triAt_second
+#print axioms Norm.C19.triAt_cons3
+#print axioms Norm.C19.peek1_append_len3
+#print axioms Norm.C19.selfReadsB_sound
+#print axioms Norm.C19.noEarlyCloseB_sound
+#print axioms Norm.C19.lineOKB_sound
+#print axioms Norm.C19.cline_length_ge
+#print axioms Norm.C19.clines_length_ge
+#print axioms Norm.C19.comment_lines_prefix
